@@ -615,3 +615,36 @@ def run_fresh_processes(cases, tag, par=12, watchdog=20.0, mem=3 << 30):
         res = list(ex.map(one, range(len(cases))))
     shutil.rmtree(d, ignore_errors=True)
     return res
+
+
+def tlc_trace_parallel(module, tpath, nchunks=10, timeout=3000, heap="3g"):
+    """Validate a (stateless, one-event-per-line) trace file with several TLC processes, each on a slice.
+    Returns (sum of distinct states, sum of generated states, list of (kind, value) prints)."""
+    import concurrent.futures
+    lines = open(tpath).read().splitlines()
+    if not lines:
+        return 0, 0, []
+    nchunks = max(1, min(nchunks, (len(lines) + 49) // 50))
+    paths = []
+    for k in range(nchunks):
+        p = "%s.part%d" % (tpath, k)
+        with open(p, "w") as f:
+            f.write("\n".join(lines[k::nchunks]) + "\n")
+        paths.append(p)
+
+    def one(k):
+        return tlc(module, workers=1, dfs=True, env={"TRACE": paths[k]}, timeout=timeout, heap=heap, metaname="%s-part%d" % (module, k))
+    with concurrent.futures.ThreadPoolExecutor(max_workers=nchunks) as ex:
+        rs = list(ex.map(one, range(nchunks)))
+    for p in paths:
+        try:
+            os.remove(p)
+        except OSError:
+            pass
+    prints = []
+    for r in rs:
+        if r.rc != 0 and not any(k == "REJECT" for k, _ in r.prints):
+            log(r.out[-3000:])
+            raise ToolError("%s failed on a trace slice" % module)
+        prints.extend(r.prints)
+    return sum(r.distinct for r in rs), sum(r.generated for r in rs), prints
